@@ -180,10 +180,13 @@ class PyKdebugParser:
         return '\n'.join(ret)
 
     def _format_log(self, os_log: OsLogEvent):
-        time_string = os_log.unix_date.strftime('%Y-%m-%d %H:%M:%S.%f')
-        timestamp = f'{time_string:<27}'
-        event_rep = colored(str(timestamp), 'green') if self.color else str(timestamp)
-        if os_log.process:
+        event_rep = ''
+        if self.show_timestamp:
+            time_string = os_log.unix_date.strftime('%Y-%m-%d %H:%M:%S.%f')
+            timestamp = f'{time_string:<27}'
+            event_rep += colored(str(timestamp), 'green') if self.color else str(timestamp)
+        event_rep += f'{os_log.thread_identifier:>11} ' if self.show_tid else ''
+        if self.show_process and os_log.process:
             process = f'{self._format_process(os_log.thread_identifier):<27}'
             process = colored(process, 'magenta') if self.color else process
             event_rep += f' {process} '
